@@ -32,10 +32,11 @@ RC = ['unknown_state_handle', 'wrong_state_type', 'get_state_twice', 'unknown_de
       'mk_context_state_existing_handle', 'mk_context_state_non_context_descriptor', 'get_state_without_descriptor',
       'remove_then_get_state']
 CF = ['pre_commit_handler_raises', 'add_state_duplicate_handle', 'entity_delete_context_state',
-      'entity_delete_context_state_in_descriptor_transaction']
+      'entity_delete_context_state_in_descriptor_transaction', 'descriptor_transaction_add_state_existing_key',
+      'descriptor_transaction_entity_new_state_foreign_handle']
 RCC = ['metric_write_entities_wrong_type', 'metric_write_entities_multi_state', 'alert_write_entities_wrong_type',
        'context_write_entity_unknown_handle', 'descriptor_write_entities_already_written', 'mk_context_state_existing_handle',
-       'get_context_state_unknown_handle']
+       'get_context_state_unknown_handle', 'add_descriptor_with_foreign_state', 'metric_write_entities_unknown_descriptor']
 IU = ['single_state_entity', 'multi_state_entity_new_state', 'entity_after_descriptor_change']
 IK = ['write_to_transaction_state', 'write_to_entity', 'write_to_transaction_result', 'later_transaction_same_member']
 
@@ -77,6 +78,13 @@ def obligations(tier):
                       bounds='entity fetched before a commit, update() after it; two distinct symbolic strs <= 2, mv, sv in N',
                       claim='update() shows the committed data (including context states created meanwhile) and the entity stays a '
                             'private copy at every nesting depth'))
+    for i, n in enumerate(['write_to_transaction_descriptor', 'write_to_written_entity', 'write_to_result_updated', 'write_to_result_created']):
+        obs.append(Ob(f'C03.isolation_descriptor.{n}', 'harness.C03', 'isolation_descriptor', bind={'kind': i}, timeout=t,
+                      functions=F + ['sdc11073.mdib.transactions.DescriptorTransaction.process_transaction'], stubs=STUBS,
+                      bounds='one committed descriptor update / creation; two distinct symbolic strs <= 2 written into Unit.Code (and an '
+                             'append to Unit.Translation) of the object still held; mv, dv in N',
+                      claim='the MDIB descriptor shares no member with the handed-out descriptor, the written entity or the published '
+                            'result; the published descriptor (exactly one per handle) keeps the committed value'))
     return obs
 
 
